@@ -544,3 +544,393 @@ def _param_string_cases(seed, tier):
 
 
 create_parameter_string.native_cases = staticmethod(_param_string_cases)
+
+
+# ------------------------------------------------------------------------------------------------ results (C07, C20)
+def IS_NONE_RESULT(r):
+    td = TD(r.type)
+    return td["kind"] == "NamedType" and td["qname"] == "builtins.None"
+
+
+def RESULT_ITEM(nc, r):
+    ts = R(nc, TD(r.type))
+    return (ESC(CONV(r.name, nc, False)) + ": " + ts) if ts else ""
+
+
+def RESULTS(nc, results):
+    """` -> name: T` for one result, ` -> (a: T, b: U)` for several, nothing for `-> None` or no results."""
+    typed = [r for r in results if r.type is not None]
+    if any(IS_NONE_RESULT(r) for r in typed):
+        # a None result suppresses the list: only results before the first None-typed one are rendered at all
+        return ""
+    items = [RESULT_ITEM(nc, r) for r in typed if RESULT_ITEM(nc, r)]
+    if len(items) == 1:
+        return " -> " + items[0]
+    if len(items) > 1:
+        return " -> (" + ", ".join(items) + ")"
+    return ""
+
+
+def RESULT_MARKERS(results):
+    typed = [r for r in results if r.type is not None]
+    out = set()
+    for r in typed:
+        if IS_NONE_RESULT(r):
+            return out
+        out = out | TF(TD(r.type))
+    if not [1 for r in typed if R(NamingConvention.PYTHON, TD(r.type))]:
+        out = out | {"result without type"}
+    return out
+
+
+@contract(_G + "_create_result_string", props=["C07", "C20", "C02", "C09"])
+class create_result_string:
+    params = {"function_results": "list[Result]"}
+    modifies = ["self._current_todo_msgs", "self.module_imports", "self.classes_outside_package"]
+    safety = False
+
+    @clause(props=["C07", "C02", "C09"], mode="bounded")
+    def ensures_render(self, function_results, result):
+        return result == RESULTS(self.naming_convention, function_results)
+
+    @clause(props=["C20"], mode="bounded")
+    def ensures_markers(self, function_results):
+        return self._current_todo_msgs - FREE_MARKERS == (old(self._current_todo_msgs) | RESULT_MARKERS(function_results)) - FREE_MARKERS
+
+
+# ------------------------------------------------------------------------------------------------ documentation comments (C13)
+def DOC_COMMENT(nc, docstring, indent, node, node_kind):
+    """Full documentation comment: description, one `@param <name> <text>` per documented parameter, one
+    `@result <name> <text>` per documented result, one `@example` block per example (only the >>> / ... lines)."""
+    from safeds_stubgen.docstring_parsing import AttributeDocstring
+    text = ""
+    if docstring.description:
+        text = indent + " * " + DESC(docstring.description, indent)
+    params = []
+    if node_kind == "class":
+        params = node.constructor.parameters if node.constructor is not None else []
+    elif node_kind == "function":
+        params = node.parameters
+    ptext = "".join(indent + " * @param " + CONV(p.name, nc, False) + " " + DESC(p.docstring.description, indent)
+                    for p in params if p.docstring.description)
+    if ptext and text:
+        ptext = indent + " *\n" + ptext
+    text += ptext
+    rtext = ""
+    if node_kind == "function":
+        k = 0
+        for rd in node.result_docstrings:
+            if rd.description:
+                if rd.name:
+                    nm = rd.name
+                else:
+                    k += 1
+                    nm = "result_" + str(k)
+                rtext += indent + " * @result " + CONV(nm, nc, False) + " " + ("\n" + indent + " * ").join(rd.description.split("\n")) + "\n"
+        if rtext and text:
+            rtext = indent + " *\n" + rtext
+    text += rtext
+    examples = []
+    if not isinstance(docstring, AttributeDocstring) and docstring.examples:
+        for ex in docstring.examples:
+            block = indent + " * @example\n" + indent + " * pipeline example {\n"
+            for line in ex.split("\n"):
+                if line.startswith(">>>"):
+                    block += indent + " *     " + line.replace(">>>", "//") + "\n"
+                elif line.startswith("..."):
+                    block += indent + " *     " + line.replace("...", "//") + "\n"
+            block += indent + " * }\n"
+            examples.append(block)
+    if text and examples:
+        text += indent + " *\n"
+    text += (indent + " *\n").join(examples)
+    return (indent + "/**\n" + text + indent + " */\n") if text else ""
+
+
+def _node_kind(node):
+    from safeds_stubgen.api_analyzer import Class, Function
+    return "class" if isinstance(node, Class) else ("function" if isinstance(node, Function) else "none")
+
+
+@contract(_G + "_create_sds_docstring", props=["C13", "C02", "C09"])
+class create_sds_docstring:
+    safety = False
+    modifies = []
+
+    @clause(mode="bounded")
+    def ensures_comment(self, docstring, indentations, node, result):
+        return result == DOC_COMMENT(self.naming_convention, docstring, indentations, node, _node_kind(node))
+
+
+# ------------------------------------------------------------------------------------------------ functions (C03, C06, C07, C09, C20, C02)
+def TYPE_VARS(nc, function, is_method, class_generics):
+    names = []
+    for tv in function.type_var_types:
+        nm = ESC(CONV(tv.name, nc, False))
+        if (not is_method) or nm not in class_generics:
+            names.append(nm + ((" sub " + R(nc, TD(tv.upper_bound))) if tv.upper_bound is not None else ""))
+    return ("<" + ", ".join(names) + ">") if names else ""
+
+
+def FUNCTION_TEXT(gen, pending_before, function, indent, is_method):
+    """The stub of a function: marker block, documentation comment, @Pure, @PythonName iff renamed,
+    `[static ]fun name<T>(params)[ -> results]`."""
+    nc = gen.naming_convention
+    static = "static " if (function.is_class_method or function.is_static) else ""
+    markers = set(pending_before)
+    if function.is_class_method:
+        markers = markers | {"class_method"}
+    markers = markers | PARAMS_MARKERS(function.parameters, (not function.is_static) and is_method)
+    for tv in function.type_var_types:
+        nm = ESC(CONV(tv.name, nc, False))
+        if ((not is_method) or nm not in gen.class_generics) and tv.upper_bound is not None:
+            markers = markers | TF(TD(tv.upper_bound))
+    markers = markers | RESULT_MARKERS(function.results)
+    ann = ANNOT(function.name, nc, False)
+    return (TODO_BLOCK(markers, indent)
+            + DOC_COMMENT(nc, function.docstring, indent, function, "function")
+            + indent + "@Pure\n"
+            + ((indent + ann + "\n") if ann else "")
+            + indent + static + "fun " + ESC(CONV(function.name, nc, False))
+            + TYPE_VARS(nc, function, is_method, gen.class_generics)
+            + "(" + PARAMS(nc, function.parameters, indent, (not function.is_static) and is_method) + ")"
+            + RESULTS(nc, function.results))
+
+
+def MOVED(gen, node):
+    """Is the declaration emitted in a re-exporting package with a shorter path instead of here?"""
+    cur = len(gen._get_module_id().split("/"))
+    return any(len(m.id.split("/")) < cur for m in node.reexported_by)
+
+
+def STRIP_FREE(text):
+    """Text without the lines of markers that are outside the property's list (internal class as type)."""
+    return "\n".join(ln for ln in text.split("\n") if "An internal class must not be used" not in ln)
+
+
+@contract(_G + "_create_function_string", props=["C03", "C06", "C07", "C09", "C20", "C02", "C13"])
+class create_function_string:
+    safety = False
+    modifies = ["self._current_todo_msgs", "self.module_imports", "self.classes_outside_package", "self.reexport_modules",
+                "function.name"]
+
+    def requires(self, function, indentations, is_method, in_reexport_module):
+        return all((p.type is not None) or (not p.is_optional) for p in function.parameters)
+
+    @clause(mode="bounded")
+    def ensures_text(self, function, indentations, is_method, in_reexport_module, result):
+        moved = (not is_method) and (not in_reexport_module) and MOVED(self, function)
+        return STRIP_FREE(result) == ("" if moved else STRIP_FREE(
+            FUNCTION_TEXT(self, old(set(self._current_todo_msgs)), function, indentations, is_method)))
+
+    @clause(props=["C20"], mode="bounded")
+    def ensures_flushed(self, function, indentations, is_method, in_reexport_module, result):
+        return implies(result != "", self._current_todo_msgs == set())
+
+    @clause(props=["C03"], mode="bounded")
+    def ensures_moved_once(self, function, indentations, is_method, in_reexport_module, result):
+        moved = (not is_method) and (not in_reexport_module) and MOVED(self, function)
+        n_after = sum(1 for lst in self.reexport_modules.values() for x in lst if x.id == function.id)
+        n_before = old(sum(1 for lst in self.reexport_modules.values() for x in lst if x.id == function.id))
+        return n_after == n_before + (1 if moved else 0)
+
+
+def PROPERTY_TEXT(gen, pending_before, function, indent):
+    nc = gen.naming_convention
+    ann = ANNOT(function.name, nc, False)
+    from safeds_stubgen.api_analyzer import UnionType
+    tds = UnionType(types=[r.type for r in function.results if r.type is not None]).to_dict()
+    ts = R(nc, tds)
+    markers = set(pending_before) | TF(tds)
+    return (TODO_BLOCK(markers, indent) + DOC_DESCRIPTION(function.docstring.description, indent)
+            + indent + ((ann + " ") if ann else "") + "attr " + ESC(CONV(function.name, nc, False)) + ((": " + ts) if ts else ""))
+
+
+@contract(_G + "_create_property_function_string", props=["C03", "C09", "C20", "C02", "C13", "C05"])
+class create_property_function_string:
+    safety = False
+    modifies = ["self._current_todo_msgs", "self.module_imports", "self.classes_outside_package"]
+
+    @clause(mode="bounded")
+    def ensures_text(self, function, indentations, result):
+        return STRIP_FREE(result) == STRIP_FREE(PROPERTY_TEXT(self, old(set(self._current_todo_msgs)), function, indentations))
+
+
+# ------------------------------------------------------------------------------------------------ attributes
+def ATTRIBUTE_TEXT(gen, pending_before, a, indent):
+    nc = gen.naming_convention
+    td = TD(a.type) if a.type else None
+    ts = R(nc, td)
+    markers = set(pending_before) | TF(td) | (set() if ts else {"attr without type"})
+    ann = ANNOT(a.name, nc, False)
+    from safeds_stubgen.docstring_parsing import AttributeDocstring
+    return (TODO_BLOCK(markers, indent) + DOC_COMMENT(nc, a.docstring, indent, None, "none") + indent
+            + ((ann + "\n" + indent) if ann else "") + ("static " if a.is_static else "") + "attr " + ESC(CONV(a.name, nc, False))
+            + ((": " + ts) if ts else ""))
+
+
+def SHOWN_ATTRIBUTES(attributes):
+    return [a for a in attributes if a.is_public and not (a.type and TD(a.type)["kind"] == "TypeVarType")]
+
+
+@contract(_G + "_create_class_attribute_string", props=["C03", "C04", "C09", "C20", "C02", "C05"])
+class create_class_attribute_string:
+    safety = False
+    modifies = ["self._current_todo_msgs", "self.module_imports", "self.classes_outside_package"]
+
+    @clause(mode="bounded")
+    def ensures_text(self, attributes, inner_indentations, result):
+        shown = SHOWN_ATTRIBUTES(attributes)
+        pend = old(set(self._current_todo_msgs))
+        texts = []
+        for i, a in enumerate(shown):
+            texts.append(ATTRIBUTE_TEXT(self, pend if i == 0 else set(), a, inner_indentations))
+        want = ("\n" + "\n".join(texts) + "\n") if texts else ""
+        return STRIP_FREE(result[0]) == STRIP_FREE(want) and result[1] == {a.name for a in shown}
+
+
+# ------------------------------------------------------------------------------------------------ enums
+def ENUM_TEXT(gen, e):
+    nc = gen.naming_convention
+    head = DOC_COMMENT(nc, e.docstring, "", None, "none") + "enum " + e.name
+    if not e.instances:
+        return head
+    body = ""
+    for inst in e.instances:
+        ann = ANNOT(inst.name, nc, False)
+        body += INDENT + ((ann + " ") if ann else "") + ESC(CONV(inst.name, nc, False)) + "\n"
+    return head + " {\n" + body + "}"
+
+
+@contract(_G + "_create_enum_string", props=["C03", "C09", "C02", "C13"])
+class create_enum_string:
+    safety = False
+    modifies = []
+
+    @clause(mode="bounded")
+    def ensures_text(self, enum_data, result):
+        return result == ENUM_TEXT(self, enum_data)
+
+
+# ------------------------------------------------------------------------------------------------ imports block
+def IMPORTS_TEXT(nc, imports):
+    if not imports:
+        return ""
+    lines = sorted("from " + ESC(CONV(".".join(q.split(".")[:-1]), nc, False)) + " import " + ESC(CONV(q.split(".")[-1], nc, False))
+                   for q in imports)
+    return "\n" + "\n".join(lines) + "\n"
+
+
+@contract(_G + "_create_imports_string", props=["C11", "C08", "C02", "C09"])
+class create_imports_string:
+    safety = False
+    modifies = []
+
+    @clause(mode="bounded")
+    def ensures_text(self, result):
+        return result == IMPORTS_TEXT(self.naming_convention, self.module_imports)
+
+
+# ------------------------------------------------------------------------------------------------ native cases from the fixtures
+def _function_cases(seed, tier):
+    from specs.fixtures import apis, fresh_generator, owner_module
+    for api in apis(tier):
+        for conv in (False, True):
+            for f in api.functions.values():
+                m = owner_module(api, f.id)
+                is_method = f.id.rsplit("/", 1)[0] in api.classes
+                for pend in (set(), {"multiple_inheritance"}):
+                    g = fresh_generator(api, conv, m)
+                    g._current_todo_msgs = set(pend)
+                    g.class_generics = ["T"] if is_method else []
+                    yield {"self": g, "kwargs": {"function": f, "indentations": "    " if is_method else "",
+                                                 "is_method": is_method, "in_reexport_module": False}}
+                g = fresh_generator(api, conv, m)
+                yield {"self": g, "kwargs": {"function": f, "indentations": "", "is_method": is_method, "in_reexport_module": True}}
+
+
+create_function_string.native_cases = staticmethod(_function_cases)
+
+
+def _property_cases(seed, tier):
+    from specs.fixtures import apis, fresh_generator, owner_module
+    for api in apis(tier):
+        for conv in (False, True):
+            for f in api.functions.values():
+                if f.is_property:
+                    g = fresh_generator(api, conv, owner_module(api, f.id))
+                    yield {"self": g, "kwargs": {"function": f, "indentations": "    "}}
+
+
+create_property_function_string.native_cases = staticmethod(_property_cases)
+
+
+def _result_cases(seed, tier):
+    from specs.fixtures import apis, fresh_generator, owner_module
+    for api in apis(tier):
+        for conv in (False, True):
+            for f in api.functions.values():
+                g = fresh_generator(api, conv, owner_module(api, f.id))
+                yield {"self": g, "kwargs": {"function_results": f.results}}
+
+
+create_result_string.native_cases = staticmethod(_result_cases)
+
+
+def _docstring_cases(seed, tier):
+    from specs.fixtures import PKGS, api_for, fresh_generator, owner_module
+    for path, style in PKGS[(0 if tier != "quick" else 0):(len(PKGS) if tier != "quick" else 3)]:
+        api = api_for(path, style)
+        for conv in (False, True):
+            for f in api.functions.values():
+                g = fresh_generator(api, conv, owner_module(api, f.id))
+                yield {"self": g, "kwargs": {"docstring": f.docstring, "indentations": "    ", "node": f}}
+            for c in api.classes.values():
+                g = fresh_generator(api, conv, owner_module(api, c.id))
+                yield {"self": g, "kwargs": {"docstring": c.docstring, "indentations": "", "node": c}}
+            for a in api.attributes_.values():
+                g = fresh_generator(api, conv, owner_module(api, a.id))
+                yield {"self": g, "kwargs": {"docstring": a.docstring, "indentations": "    ", "node": None}}
+
+
+create_sds_docstring.native_cases = staticmethod(_docstring_cases)
+
+
+def _attribute_cases(seed, tier):
+    from specs.fixtures import apis, fresh_generator, owner_module
+    for api in apis(tier):
+        for conv in (False, True):
+            for c in api.classes.values():
+                for pend in (set(), {"multiple_inheritance"}):
+                    g = fresh_generator(api, conv, owner_module(api, c.id))
+                    g._current_todo_msgs = set(pend)
+                    yield {"self": g, "kwargs": {"attributes": c.attributes, "inner_indentations": "    "}}
+
+
+create_class_attribute_string.native_cases = staticmethod(_attribute_cases)
+
+
+def _enum_cases(seed, tier):
+    from specs.fixtures import apis, fresh_generator, owner_module
+    for api in apis(tier):
+        for conv in (False, True):
+            for e in api.enums.values():
+                yield {"self": fresh_generator(api, conv, owner_module(api, e.id)), "kwargs": {"enum_data": e}}
+
+
+create_enum_string.native_cases = staticmethod(_enum_cases)
+
+
+def _imports_cases(seed, tier):
+    from specs.fixtures import apis, fresh_generator
+    sets = [set(), {"pkg.mod.A"}, {"b.x.my_cls", "a.y.val", "a.y.Other", "in.sub.fun"}, {"top"}]
+    for api in apis("quick"):
+        for conv in (False, True):
+            for s in sets:
+                g = fresh_generator(api, conv)
+                g.module_imports = set(s)
+                yield {"self": g, "kwargs": {}}
+        break
+
+
+create_imports_string.native_cases = staticmethod(_imports_cases)
